@@ -294,9 +294,9 @@ import io, itertools
 from basilisp.lang import reader
 bad = []
 def true_locs(text, line=1, col=0):
-    """(line, col) of every index 0..len(text) by the definition: LF, CRLF and lone CR each end a line"""
+    "(line, col) of every index by the definition: LF, CRLF and lone CR each end a line"
     out = []
-    for i in range(len(text) + 3):
+    for i in range(len(text) + 16):
         if i > 0:
             prev = text[i - 1] if i - 1 < len(text) else ""
             cur = text[i] if i < len(text) else ""
@@ -306,28 +306,41 @@ def true_locs(text, line=1, col=0):
                 col += 1
         out.append((line, col))
     return out
+def ch(text, i):
+    return text[i] if i < len(text) else ""
 for n in range(0, 5):
     for chars in itertools.product("a\n\r", repeat=n):
         text = "".join(chars)
         locs = true_locs(text)
         for depth in (2, 3, 5):
-            r = reader.StreamReader(io.StringIO(text), pushback_depth=depth)
-            p, reads = 0, 2
-            script = "nnpnnppnnnpn"
-            for step in script:
-                want_ch = text[p] if p < len(text) else ""
-                if r.peek() != want_ch or r.loc != locs[p]:
-                    bad.append("text %r depth %d after %r: peek %r loc %r, expected %r at %r" % (text, depth, script, r.peek(), r.loc, want_ch, locs[p]))
-                    break
-                if step == "n":
-                    if p + 1 >= len(locs) - 1:
-                        break
-                    r.next_char(); p += 1; reads = max(reads, p + 2)
-                else:
-                    try:
-                        r.pushback(); p -= 1
-                    except IndexError:
-                        pass
+            for script in ("nnpnnppnnnpn", "aapaanppan", "npnpnnnppp"):
+                try:
+                    r = reader.StreamReader(io.StringIO(text), pushback_depth=depth)
+                    p, reads = 0, 2          # position of the cursor, characters read so far
+                    for step in script:
+                        if r.peek() != ch(text, p) or r.loc != locs[p] or (r.line, r.col) != locs[p]:
+                            bad.append("text %r depth %d script %r: at position %d peek %r loc %r, expected %r at %r" % (text, depth, script, p, r.peek(), r.loc, ch(text, p), locs[p]))
+                            break
+                        if step in "na":
+                            got = r.next_char() if step == "n" else r.advance()
+                            want = ch(text, p + 1) if step == "n" else ch(text, p)
+                            p += 1; reads = max(reads, p + 2)
+                            if got != want:
+                                bad.append("text %r depth %d script %r: %s returned %r, expected %r" % (text, depth, script, "next_char" if step == "n" else "advance", got, want))
+                                break
+                        elif p >= 1:
+                            allowed = (reads - (p - 1)) <= depth
+                            try:
+                                r.pushback(); ok = True
+                            except IndexError:
+                                ok = False
+                            if ok != allowed:
+                                bad.append("text %r depth %d script %r: pushback at position %d (%d read) %s, expected %s" % (text, depth, script, p, reads, "accepted" if ok else "refused", "accepted" if allowed else "refused"))
+                                break
+                            if ok:
+                                p -= 1
+                except Exception as e:
+                    bad.append("text %r depth %d script %r: unexpected %s: %s" % (text, depth, script, type(e).__name__, e))
 for line in bad[:10]:
     print(line)
 print("REPRODUCED" if bad else "not reproduced")
